@@ -150,7 +150,7 @@ fn fold_long(tape: &[u32], st: &mut Stats) -> CaseResult {
     let lit_pct = [30u32, 50, 70][t.choose(3)];
     let cfg = CaseCfg {
         table: TableCfg { max_bin: 6, ..TableCfg::default() },
-        tree: TreeCfg { max_operands: 120, lit_pct, unary_pct: 5, shape_weights: [2, 6, 1] },
+        tree: TreeCfg { max_operands: 120, lit_pct, unary_pct: 5, shape_weights: [2, 6, 1], ..TreeCfg::default() },
         render: RenderCfg { redundant_paren_pct: 2, ..RenderCfg::default() },
         max_vars: 6,
         weird_pct: 0,
